@@ -279,7 +279,21 @@ func genScript(r *hx.Rand, text bool) ([]rt.Def, string) {
 		}
 		ds = append(ds, d)
 		if r.Chance(1, 6) {
-			ds = append(ds, rt.Def{Cmd: "del", Service: r.Pick(services), Src: src})
+			switch r.Intn(4) {
+			case 0:
+				// by tags (the matcher contains() again; src/dst are ignored by delRoute then)
+				d := rt.Def{Cmd: "del", Tags: genCmdTags(r, tags, tags)}
+				if r.Chance(1, 2) {
+					d.Service = r.Pick(services)
+				}
+				ds = append(ds, d)
+			case 1:
+				// one instance: service, prefix and URL of an earlier add
+				a := ds[r.Intn(n)]
+				ds = append(ds, rt.Def{Cmd: "del", Service: a.Service, Src: src, Dst: a.Dst})
+			default:
+				ds = append(ds, rt.Def{Cmd: "del", Service: r.Pick(services), Src: src})
+			}
 		}
 	}
 	if r.Chance(1, 10) {
